@@ -8,6 +8,7 @@ warnings.filterwarnings("ignore", category=SyntaxWarning)
 
 from .astutil import FUNC_TYPES, dotted, norm
 from .canon import canonicalize, unstable_attrs
+from .inline import inline_new_helpers
 
 CANONICAL = os.environ.get("MXSA_RAW") != "1"
 
@@ -200,6 +201,7 @@ class Repo:
                 modname = modname[: -len(".__init__")]
             mi = ModuleInfo(modname, path, rel, src, tree)
             self.modules[modname] = mi
+        self.inlined_helpers = inline_new_helpers({m.name: m.tree for m in self.modules.values()}) if CANONICAL else []
         self.unstable_attrs = unstable_attrs([m.tree for m in self.modules.values()])
         for mi in self.modules.values():
             self._index_module(mi)
